@@ -589,9 +589,20 @@ def replay(w):
         mod = C.number_modules()[name]
         probe = C.Probe()
         probe.start()
+        calls = []
+        pending = {}
+
+        def on_start(tag, frame):
+            args = C.frame_args(frame)
+            pending[id(frame)] = next(iter(args.values()), None)
+
+        def on_return(tag, frame, retval):
+            calls.append((tag, pending.pop(id(frame), None), retval))
+        probe.on_start = on_start
+        probe.on_return = on_return
         counters = {'generator_calls_observed_inside_validate': 0, 'mapped_generator_classes': 0,
                     'unmapped_generator_classes': 0, 'documented_alternatives_seen': 0, 'converse_cases': 0,
                     'converse_confounded_by_other_checks': 0}
-        module_work(name, mod, 'quick', C.rng_for('C05', name), viols, set(), counters, [], probe, [])
+        module_work(name, mod, 'quick', C.rng_for('C05', name), viols, set(), counters, [], probe, calls)
         probe.stop()
     return list(viols.values())
